@@ -63,7 +63,7 @@ def scn_chain(T, case):
     else:
         plan_cls, ctx_cls = T.func(MP, "Plan"), T.func(MC, "OptimizerContext")
     log = []
-    octx = ctx_cls(evaluator=None, plugin_manager=types.SimpleNamespace())
+    octx = ctx_cls(evaluator=None, plugin_manager=stepflow.PlanPlugins())
     et = list(EventType)[T.choose(len(EventType))]
     for e in EventType:
         octx.add_observer(e, stepflow.Recorder("obs-%s-1" % e.name, log))
@@ -85,7 +85,8 @@ def scn_chain(T, case):
 
         parent = ArbitraryParent()
         p = plan_cls(octx, parent)
-        p._handlers = {"h%d" % k: stepflow.Recorder("plan0-handler%d" % k, log) for k in range(case["nh"])}
+        for k in range(case["nh"]):
+            stepflow.add_handler(p, stepflow.Recorder("plan0-handler%d" % k, log))
         ev = Event(event_type=et, config=None, source=None)
         p.emit_event(ev)
         T.prove("C15.emit.induction_step.own_handlers_then_the_parent_once_and_no_observer_called_directly",
@@ -93,12 +94,13 @@ def scn_chain(T, case):
         return
     inner_ctx = None
     if case.get("own_context"):
-        inner_ctx = ctx_cls(evaluator=None, plugin_manager=types.SimpleNamespace())
+        inner_ctx = ctx_cls(evaluator=None, plugin_manager=stepflow.PlanPlugins())
         for e in EventType:
             inner_ctx.add_observer(e, stepflow.Recorder("observer-of-an-inner-context-%s" % e.name, log))
     for d in range(case["depth"]):
         p = plan_cls(octx if (d == 0 or inner_ctx is None) else inner_ctx, None if (case.get("late_root") and d == 1) else parent)
-        p._handlers = {"h%d" % k: stepflow.Recorder("plan%d-handler%d" % (d, k), log) for k in range(case["nh"])}
+        for k in range(case["nh"]):
+            stepflow.add_handler(p, stepflow.Recorder("plan%d-handler%d" % (d, k), log))
         plans.append(p)
         parent = p
     child = plans[-1]
@@ -117,12 +119,12 @@ def scn_chain(T, case):
     # abort flag: monotone, run_step refuses
     from ropt.exceptions import PlanAborted
 
-    child._steps = {"s": types.SimpleNamespace(run=lambda **kw: "ran")}
-    T.prove("C15.plan.steps_run_while_not_aborted", child.run_step("s") == "ran" and child.aborted is False)
+    sid = stepflow.add_step(child, lambda **kw: "ran")
+    T.prove("C15.plan.steps_run_while_not_aborted", child.run_step(sid) == "ran" and child.aborted is False)
     child.abort()
     child.abort()
     try:
-        child.run_step("s")
+        child.run_step(sid)
         refused = False
     except PlanAborted:
         refused = True
@@ -134,7 +136,7 @@ def scn_chain(T, case):
     def function(plan, *args):
         seen.append(plan.aborted)
         try:
-            plan.run_step("s")
+            plan.run_step(sid)
             seen.append("step ran")
         except PlanAborted:
             seen.append("refused")
@@ -171,13 +173,13 @@ def scn_nested(T, case):
     else:
         cls, plan_cls = T.func(MOPT, "DefaultOptimizerStep"), T.func(MP, "Plan")
     log = []
-    octx = types.SimpleNamespace(call_observers=lambda event: log.append("observers"))
+    octx = types.SimpleNamespace(call_observers=lambda event: log.append("observers"), plugin_manager=stepflow.PlanPlugins())
     outer, inner = plan_cls(octx), plan_cls(octx)
-    outer._handlers = {"h": stepflow.Recorder("outer-handler", log)}
-    inner._handlers = {"h": stepflow.Recorder("inner-handler", log)}
+    stepflow.add_handler(outer, stepflow.Recorder("outer-handler", log))
+    stepflow.add_handler(inner, stepflow.Recorder("inner-handler", log))
     if case.get("reused"):
         previous = plan_cls(octx)
-        previous._handlers = {"h": stepflow.Recorder("previous-outer-handler", log)}
+        stepflow.add_handler(previous, stepflow.Recorder("previous-outer-handler", log))
         pstep = cls(previous)
         pstep._nested_optimization = inner
         inner.add_function(lambda plan, variables: FunctionResults(batch_id=None, metadata={}, evaluations=None, realizations=None, functions=None))
